@@ -47,6 +47,12 @@ CHECKS = {
  'C08': dict(technique='probe battery at sampled reachable states: can_x / verify_x / x on a deep copy for hostile argument sets, with a deep state fingerprint before and after every call',
              text='Held on >2*10^6 probe triplets per quick run over ~2*10^4 probed states of all phases (incl. after the hand): query, verifier and operation agree, refusals are ValueError/UserWarning, refused calls leave repr(State) unchanged, explicit indices are honoured.',
              note='Arguments of the documented types; fingerprint = repr of all dataclass fields.', ref='DESIGN.md §2 C08'),
+ 'C18': dict(technique='runtime check of algebraic identities (exhaustive over rank pairs and notation forms), differential against the engine showdown split and an independent Malmuth-Harville recursion',
+             text='Range identities are enumerated completely on every run (13x13 rank pairs x all forms, both rank orders); equities of seeded fully specified deals are compared with what the engine pays for the same cards; ICM vectors against an exact-fraction reference.',
+             note='The engine showdown (decided by C02) is the oracle for the equity split.', ref='DESIGN.md §2 C18'),
+ 'C19': dict(technique='representation-equivalence differential (same state from every raw form), exhaustive card text round trip, rejection table, swept postconditions of divmod/rake',
+             text='Held on the generated vectors and forms: every representation yields the same antes/blinds/stacks and the same full state; all 70 rank x suit cards round-trip; each documented invalid layout is refused and its valid neighbour accepted; helper parts add up over swept inputs.',
+             note='State equality over all dataclass fields except callables.', ref='DESIGN.md §2 C19'),
 }
 PENDING_REASON = 'check not built yet in this revision (runtime monitor planned, see DESIGN.md §2); not claimed until it exists'
 
